@@ -103,8 +103,11 @@ func variants(hvals []int, purls []int, kinds []bool) []variant {
 // reference for the documented matching rule -------------------------------
 
 type refOut struct {
-	id  string // "" = nil
-	err bool
+	id   string // "" = nil
+	node *sbom.Node
+	err  bool
+	// distinctH: the hash-matching nodes carry pairwise different node identifiers (always true for well-formed lists)
+	distinctH bool
 }
 
 func refMatch(list []*sbom.Node, probe *sbom.Node) refOut {
@@ -117,9 +120,23 @@ func refMatch(list []*sbom.Node, probe *sbom.Node) refOut {
 		}
 	}
 	pp := probe.Purl()
+	distinct := true
+	seenID := map[string]bool{}
+	for _, n := range H {
+		if seenID[n.Id] {
+			distinct = false
+		}
+		seenID[n.Id] = true
+	}
+	out := refMatchRule(list, H, pp)
+	out.distinctH = distinct
+	return out
+}
+
+func refMatchRule(list, H []*sbom.Node, pp sbom.PackageURL) refOut {
 	switch {
 	case len(H) == 1:
-		return refOut{id: H[0].Id}
+		return refOut{id: H[0].Id, node: H[0]}
 	case len(H) == 0:
 		if pp == "" {
 			return refOut{}
@@ -131,7 +148,7 @@ func refMatch(list []*sbom.Node, probe *sbom.Node) refOut {
 			}
 		}
 		if len(P) == 1 {
-			return refOut{id: P[0].Id}
+			return refOut{id: P[0].Id, node: P[0]}
 		}
 		if len(P) == 0 {
 			return refOut{}
@@ -148,7 +165,7 @@ func refMatch(list []*sbom.Node, probe *sbom.Node) refOut {
 			}
 		}
 		if len(Q) == 1 {
-			return refOut{id: Q[0].Id}
+			return refOut{id: Q[0].Id, node: Q[0]}
 		}
 		return refOut{err: true}
 	}
@@ -230,6 +247,16 @@ func Run(c *engine.Ctx) {
 		matchGroup("match-n3-purl-structure", variants([]int{0, 2}, []int{3, 4, 5, 6}, []bool{false}), variants([]int{0, 2}, []int{4, 5}, []bool{false}), 3)
 	}
 
+	// repeated node identifiers (ill-formed lists): the rule speaks about nodes, not about their identifiers
+	{
+		rep := variants([]int{0, 2, 3}, []int{0, 1}, []bool{false})
+		saved := idNames
+		for _, pat := range [][]string{{"a", "a", "b", "c"}, {"a", "a", "a", "a"}, {"", "", "b", "c"}} {
+			idNames = pat
+			matchGroup("match-n3-repeated-ids-"+strings.Join(pat[:3], "|"), rep, rep, 3)
+		}
+		idNames = saved
+	}
 	lookups(c, idNames)
 	afterMutation(c)
 	wide(c)
@@ -407,8 +434,11 @@ func matchCase(t *engine.T, cur []variant, pv variant, idNames []string) *engine
 				return
 			}
 			nl := &sbom.NodeList{}
+			origin := map[*sbom.Node]string{} // a node is named by its position in the case description, not by its identifier (identifiers may repeat)
 			for _, i := range p {
-				nl.Nodes = append(nl.Nodes, cur[i].build(idNames[i]))
+				nd := cur[i].build(idNames[i])
+				origin[nd] = fmt.Sprintf("n%d", i)
+				nl.Nodes = append(nl.Nodes, nd)
 			}
 			probeID := "probe"
 			if probeVariant > 0 && len(nl.Nodes) > 0 {
@@ -441,21 +471,29 @@ func matchCase(t *engine.T, cur []variant, pv variant, idNames []string) *engine
 					viol = engine.Violate("match-membership", "", "returned node %q is not an element of the list", got.Id)
 					return
 				}
-				obs = got.Id
+				obs = origin[got]
 			}
-			if !ambiguous {
-				want := refMatch(nl.Nodes, probe)
+			want := refMatch(nl.Nodes, probe)
+			if !ambiguous && want.distinctH {
 				t.Validated(1)
 				w := "nil"
 				if want.err {
 					w = "ambiguous"
-				} else if want.id != "" {
-					w = want.id
+				} else if want.node != nil {
+					w = origin[want.node]
 				}
 				if w != obs {
-					viol = engine.Violate("match-rule", "", "perm %v: GetMatchingNode gives %s, documented rule gives %s", p, obs, w)
+					viol = engine.Violate("match-rule", "", "perm %v (node identifiers %v): GetMatchingNode gives %s, documented rule gives %s", p, idNames[:n], obs, w)
 					return
 				}
+			}
+			if !want.distinctH {
+				// two hash-matching nodes share a node identifier: which of them stands for both is not defined; the result must
+				// still be one of the hash-matching nodes (or the ambiguity error)
+				if got != nil && !ambiguous && !got.HashesMatch(probe.Hashes) {
+					viol = engine.Violate("match-rule", "", "perm %v (node identifiers %v): hash-matching nodes exist, yet the node returned (%s) does not match the probe's hashes", p, idNames[:n], obs)
+				}
+				return
 			}
 			if base == "" {
 				base = obs
